@@ -570,10 +570,10 @@ def plan(ctx):
       loops=True, kind='recursive', replay=RP('dict'), first='cadical')
     NOOVF = [c for c in DEFAULT_CHECKS if c not in ('--signed-overflow-check', '--undefined-shift-check')] + ['--no-signed-overflow-check', '--no-undefined-shift-check']
     G('JSON.parse.number', 'number', 'h_number', 'JSON_parse_number', 'JSON::parse(StringReader&, bool): number branch',
-      loops=True, kind='loop-contract', replay=RP('number'), fallback_unwind=10, defines=[], checks=NOOVF, first='cadical', object_bits=10,
+      loops=True, kind='loop-contract', replay=RP('number'), fallback_unwind=10, defines=[], checks=NOOVF, first='minisat',
       clause_note='all numerals; signed overflow of the int64 / int accumulators wraps (two\'s complement), flagged by the ghost g_j.novf')
     G('JSON.parse.number.no-overflow', 'number', 'h_number', 'JSON_parse_number', 'JSON::parse(StringReader&, bool): number branch, no UB on in-range numerals',
-      loops=True, kind='loop-contract', replay=RP('number'), fallback_unwind=10, defines=['C05_NUM_RESTRICT=1'], first='cadical', object_bits=10,
+      loops=True, kind='loop-contract', replay=RP('number'), fallback_unwind=10, defines=['C05_NUM_RESTRICT=1', 'C05_LIGHT=1'], first='minisat', tier='thorough', timeout=900,
       clause_note='numerals with at most 18 integer digits (15 hexadecimal digits): --signed-overflow-check on')
     G('JSON.parse.string', 'string', 'h_string', 'JSON_parse_string', 'JSON::parse(StringReader&, bool): string branch',
       loops=True, kind='loop-contract', replay=RP('string'), fallback_unwind=10, defines=[], first='cadical', object_bits=10)
